@@ -13,4 +13,6 @@ vcheck.coq_makefile()
 PY
 if [ -x tools/cxx2v.py ]; then tools/cxx2v.py || true; fi
 timeout 3000 make -C coq -k -j"$(nproc)" >.cache/coq_setup.log 2>&1 || { tail -30 .cache/coq_setup.log; echo "setup: coq build reported errors (checks will report them per property)"; }
+# harness binaries and model drivers (cached by content hash; the checks rebuild them when /repo or the harness sources change)
+timeout 3000 python3 tools/prebuild.py >.cache/prebuild.log 2>&1 || { tail -5 .cache/prebuild.log; echo "setup: prebuild reported errors (checks will rebuild / report)"; }
 echo setup done
